@@ -16,7 +16,7 @@ func init() {
 		Explanation: "Decided: which lock is requested (exclusive iff read-write, always non-blocking, retried until the timeout) on every supported GOOS; that the lock is taken after the file is opened and before any of its content is read; " +
 			"that read-only mode selects O_RDONLY, refuses write transactions before any state change and never reaches a file writer; that every mapping is created read-only (PROT_READ / PAGE_READONLY+FILE_MAP_READ) with no mprotect or second mapping; " +
 			"that close always closes the descriptor (dropping the advisory lock) and Close waits for all three locks; and that the CLI's inspection commands open the database read-only. " +
-			"NOT decided: the kernel's flock/fcntl/mmap behaviour (trusted), lock timing, and that a store through a returned slice faults (a consequence of the read-only mapping under the trusted kernel).",
+			"NOT decided: the kernel's flock/fcntl/mmap behaviour (trusted), lock timing, and that a store through a returned slice faults (a consequence of the read-only mapping under the trusted kernel). Round 3: the descriptor that carries the file lock is closed only by (*DB).close.",
 		Run: func(c *Ctx) {
 			ruleDataFileClosedOnlyByClose(c, "C17.R7") // the descriptor that carries the file lock is closed only by Close
 			c17R1(c, "C17.R1")
